@@ -93,18 +93,20 @@ def same_norm(a, b):
 
 
 def presentations(rng, params, kwonly, binding, limit=40):
-    """all ways of presenting `binding`: partial prefix i, partial kwargs subset, positional j, kwargs order"""
+    """all ways of presenting `binding`: the first i parameters as partial positional args, ANY subset of the
+    others as partial kwargs, the first r of the names still unbound positionally, the rest as kwargs (both orders)"""
     n = len(params)
     res = []
-    for i in range(0, n + 1):                     # params[:i] as partial positional args
-        for j in range(i, n + 1):                 # params[i:j] as positional args
-            rest = params[j:] + kwonly
-            for r in range(0, len(rest) + 1):
-                for pk in itertools.combinations(rest, r):      # given as partial kwargs
-                    kw = [x for x in rest if x not in pk]
+    for i in range(0, n + 1):
+        others = params[i:] + kwonly
+        for k in range(0, len(others) + 1):
+            for pk in itertools.combinations(others, k):
+                remaining = [p for p in params[i:] if p not in pk]          # positional slots still open, in order
+                for r in range(0, len(remaining) + 1):
+                    kw = [p for p in remaining[r:]] + [p for p in kwonly if p not in pk]
                     for perm in ([kw, list(reversed(kw))] if len(kw) > 1 else [kw]):
                         res.append(dict(pargs=[binding[p] for p in params[:i]], pkw={p: binding[p] for p in pk},
-                                        args=[binding[p] for p in params[i:j]], kwargs={p: binding[p] for p in perm}))
+                                        args=[binding[p] for p in remaining[:r]], kwargs={p: binding[p] for p in perm}))
     rng.shuffle(res)
     return res[:limit]
 
